@@ -47,7 +47,7 @@ pub fn units_builtin() {
     unit_ok!([(u16, u16); 2], (u16, u16));
 }
 
-// @h units_derived props=C07,C05 tier=quick kind=complete vars="closed terms: Z8, Z32, ZT, ZU<3> (derive output)" fns="derive:MaxSizeOf"
+// @h units_derived props=C07,C05 tier=quick kind=complete vars="closed terms: Z8, Z32, ZT, ZU<3>, ZE (zero-copy enum), nm::base::Z, nm::repr::Z (derive output)" fns="derive:MaxSizeOf"
 #[kani::proof]
 pub fn units_derived() {
     unit_ok!(Z8, u32, u16);
@@ -55,4 +55,7 @@ pub fn units_derived() {
     unit_ok!(ZT, Z8, [u16; 2]);
     unit_ok!(ZU<3>);
     unit_ok!([Z32; 2], Z32);
+    unit_ok!(ZE, u8, u16, bool);
+    unit_ok!(crate::nm::base::Z, u32, u16);
+    unit_ok!(crate::nm::repr::Z, u32, u16);
 }
